@@ -453,3 +453,48 @@ MUTANTS = [
     M("undecided-http-vectors-from-helper", HTTP, HTTP_TW_ARG, "                self._tw_vectors(rtw_request),\n", "ANALYSIS-ERROR",
       note="a helper the evaluator does not follow is reported as undecided, never as a pass"),
 ]
+
+
+# ---- _write_share_data split into procedure-style helpers (seeded C23-I done faithfully; the benign variants of C24 / C38
+# that C23.1 used to report because the zero fill sits in self._zero_fill(f, ..)); texts and builder come from those modules
+try:
+    from .C38 import WSD_OLD as _WSD_OLD, WSD_REST as _WSD_REST, _wsd_helpers as _wsd
+except Exception:                      # pragma: no cover - the sibling self-test changed: skip these variants
+    _wsd = None
+if _wsd is not None:
+    _ZF_WRITE = "            f.write(b'\\x00'*(end - start))\n"
+    MUTANTS += [
+        M("benign-wsd-helpers-faithful", MUT, _WSD_OLD, _wsd(), None, edits=_WSD_REST,
+          note="zero fill and container growth in helpers handed the file; clip / truncation test spelt in one expression"),
+        M("benign-wsd-helpers-keywords", MUT, _WSD_OLD, _wsd(fill_call="self._zero_fill(f, end=offset, start=data_length)"), None),
+        M("wsd-helpers-zero-fill-write-dropped", MUT, _WSD_OLD, _wsd().replace(_ZF_WRITE, ""), "C23.1"),
+        M("wsd-helpers-zero-fill-at-offset", MUT, _WSD_OLD, _wsd().replace("f.seek(self.DATA_OFFSET+start)", "f.seek(self.DATA_OFFSET+end)"), "C23.1"),
+        M("wsd-helpers-zero-fill-args-swapped", MUT, _WSD_OLD, _wsd(fill_call="self._zero_fill(f, offset, data_length)"), "C23.1"),
+        M("wsd-helpers-zero-fill-keywords-swapped", MUT, _WSD_OLD, _wsd(fill_call="self._zero_fill(f, start=offset, end=data_length)"), "C23.1"),
+        M("wsd-helpers-zero-fill-one-short", MUT, _WSD_OLD, _wsd().replace("(end - start))", "(end - start - 1))"), "C23.1"),
+        M("wsd-helpers-no-growth", MUT, _WSD_OLD, _wsd(order=("fill",)), "C23.2"),
+        M("wsd-helpers-growth-off-by-one", MUT, _WSD_OLD,
+          _wsd(grow_test="self.DATA_OFFSET+data_end > self._read_extra_lease_offset(f) + 1", keep_assert=False), "C23.2"),
+        M("wsd-helpers-fill-also-from-writev", MUT, _WSD_OLD, _wsd(), "C23.6",
+          edits=[(MUT, "            if new_length is not None:\n                cur_length = self._read_data_length(f)\n",
+                  "            self._zero_fill(f, 0, 1)\n            if new_length is not None:\n                cur_length = self._read_data_length(f)\n")],
+          note="the helper's write is classified as part of _write_share_data only while nothing else reachable from writev uses it"),
+        M("undecided-wsd-helper-returns-value", MUT, _WSD_OLD, _wsd().replace("            f.flush()\n\n", "            f.flush()\n        return end\n\n"),
+          "ANALYSIS-ERROR", note="a helper that is handed the file, touches it and is no plain procedure is not followed: undecided"),
+    ]
+if _wsd is not None:
+    MUTANTS += [
+        M("clip-in-one-expression-ignores-offset", MUT, _WSD_REST[0][1], _WSD_REST[0][2].replace("data_length-offset", "data_length"), "C23.3"),
+        M("clip-in-one-expression-max-for-min", MUT, _WSD_REST[0][1], _WSD_REST[0][2].replace("min(", "max("), "C23.3"),
+        M("truncation-test-in-one-expression-reversed", MUT, _WSD_REST[2][1], _WSD_REST[2][2].replace("new_length < self.", "new_length > self."), "C23.4"),
+        M("truncation-test-in-one-expression-stale-length", MUT, _WSD_REST[2][1],
+          _WSD_REST[2][2].replace("new_length < self._read_data_length(f)", "new_length < old_length and self._read_data_length(f) >= 0"), "C23.4",
+          edits=[(MUT, "            for (offset, data) in datav:\n                self._write_share_data(f, offset, data)\n",
+                  "            old_length = self._read_data_length(f)\n            for (offset, data) in datav:\n                self._write_share_data(f, offset, data)\n")],
+          note="the length compared was read before the data writes; a second read next to it does not make the comparison fresh"),
+    ]
+try:
+    from .C24 import MSF_WRITE_SHARE_DATA as _C24_OLD, MSF_WRITE_SHARE_DATA_SPLIT as _C24_SPLIT, C23I_OTHER_HUNKS as _C24_REST
+    MUTANTS += [M("benign-write-share-data-split-faithful", MUT, _C24_OLD, _C24_SPLIT, None, edits=_C24_REST)]
+except Exception:                      # pragma: no cover
+    pass
